@@ -150,13 +150,17 @@ func checkC07(r *core.Run) {
 		res := sp.Analyze(with)
 		n := 0
 		for _, cp := range res.Calls {
-			if !inSet("beginstep", cp.Tags...) || !cp.Before.Has("true:isglobal") {
+			if !inSet("beginstep", cp.Tags...) {
 				continue
 			}
-			n++
+			if cp.Before.Has("true:isglobal") {
+				n++
+			}
 			r.Sites++
 			key := core.ShortKey(with.Obj) + " nested scope (context already carries a transaction) -> " + core.ShortKey(cp.Callee)
-			r.Check(cp.Before.Has("rebind") && cp.Before.Has("setxid") && !cp.Before.Maybe("mutate:pre"), "C07.isolation", key, w.Pos(cp.Call.Pos()),
+			// every path to the begin step either knows the incoming context carries no transaction, or has
+			// switched to a fresh context carrying the xid (a path where that is unknown, e.g. a narrowed guard, fails)
+			r.Check(cp.Before.Has("false:isglobal") || cp.Before.Has("rebind") && cp.Before.Has("setxid") && !cp.Before.Maybe("mutate:pre"), "C07.isolation", key, w.Pos(cp.Call.Pos()),
 				"the nested scope works on a fresh context carrying the same xid", "a nested scope mutates the caller's shared ContextVariable (no fresh seata context carrying the xid before begin): the inner scope overwrites the outer scope's role/xid/name, so the outer launcher skips its own second phase or ends the wrong transaction")
 		}
 		if n == 0 {
